@@ -12,7 +12,7 @@ RULE = ("static clusters (1-3 brokers, 2-4 topics x 1-5 partitions, ~15% leaderl
         "(fetch_messages, fetch_offsets, list_offsets, fetch_topic_offsets, produce_messages, commit_offsets, fetch_group_offsets, fetch_group_topic_offset "
         "with Kafka or Zookeeper offset storage, Producer send_all, Consumer creation + poll) whose arguments mix known topics with unknown ones (fresh names, "
         "prefixes / extensions / case variants of known names) and partition ids in range, == count, count+1, 99, 2^31-1, -1, -2, -2^31, with and without leader; "
-        "the fixed regression inputs `commit_offsets g [(known, 99, 5)]` / `fetch_group_offsets g [(known, count)]` are always included; "
+        "the regression inputs `commit_offsets g [(known, 99, 5)]` / `fetch_group_offsets g [(known, count)]` and their in-range twins (partition count-1) are in every case with a known topic; "
         "non-trivial = a case in which a call carrying an unknown entry was made and a request naming a known topic was observed")
 ASSUMPTIONS = ["'currently loaded metadata' is the merge defined by C06 (props/c06.py replay_merge), computed from the responses of the case's own history",
                "a produce/send naming a partition that is known but has no leader is expected to fail like an unknown one (statement of C05)"]
@@ -120,11 +120,11 @@ def probe_ops(rng, view, routes, n, allow_empty_group_fetch):
     known = sorted(view)
     ops = []
 
-    def entries(lo, hi, led_only=False):
+    def entries(lo, hi, led_only=False, clean_p=0.3):
         k = rng.randint(lo, hi)
         if led_only:                                         # every entry known, in range, with a leader
             return [entry(rng, view, routes, "ok") for _ in range(k)]
-        if rng.random() < 0.3:                               # every entry known and in range
+        if rng.random() < clean_p:                           # every entry known and in range
             return [entry(rng, view, routes, rng.choice(["ok", "ok", "ok", "leaderless"])) for _ in range(k)]
         return [entry(rng, view, routes) for _ in range(k)]
 
@@ -148,10 +148,10 @@ def probe_ops(rng, view, routes, n, allow_empty_group_fetch):
             es = entries(1, 5, rng.random() < 0.3)
             ops.append(T(k, [rng.choice([1, 1, -1, 0]), 1, 0, [pm(t, p, None, b"val%d" % i) for i, (t, p, _) in enumerate(es)]]))
         elif k == "commit_offsets":
-            es = entries(0 if rng.random() < 0.1 else 1, 4)
+            es = entries(0 if rng.random() < 0.1 else 1, 4, clean_p=0.5)
             ops.append(T(k, [G, [T("co", [t, p, rng.randint(0, 9)]) for t, p, _ in es]]))
         elif k == "fetch_group_offsets":
-            es = entries(0 if allow_empty_group_fetch and rng.random() < 0.1 else 1, 4)
+            es = entries(0 if allow_empty_group_fetch and rng.random() < 0.1 else 1, 4, clean_p=0.5)
             ops.append(T(k, [G, [T("fgo", [t, p]) for t, p, _ in es]]))
         elif k == "fetch_group_topic_offset":
             ops.append(T(k, [G, names(1, 1)[0]]))
@@ -166,6 +166,9 @@ def regression_ops(rng, view):
         n = len(view[t])
         ops.append(T("commit_offsets", [G, [T("co", [t, 99, 5])]]))
         ops.append(T("fetch_group_offsets", [G, [T("fgo", [t, n])]]))
+        if n:                                                # the boundary from inside: the last valid id is accepted
+            ops.append(T("commit_offsets", [G, [T("co", [t, n - 1, 7])]]))
+            ops.append(T("fetch_group_offsets", [G, [T("fgo", [t, n - 1])]]))
         if n and rng.random() < 0.5:
             ops.append(T("commit_offsets", [G, [T("co", [t, 0, 1]), T("co", [t, rng.choice([n, -1, I32MIN, I32MAX]), 5])]]))
     return ops
@@ -194,19 +197,31 @@ def producer_section(rng, view, routes):
     return ops
 
 
+def assignment(calls):
+    """the builder keeps the LAST call per topic: topic -> [partition ids] ([] = all)"""
+    a = {}
+    for c in calls:
+        if c.name == "with_topic":
+            a[c.args[0]] = []
+        elif c.name == "with_topic_partitions":
+            a[c.args[0]] = list(c.args[1])
+    return a
+
+
+def assignment_outside(calls, view):
+    return any(t not in view or any(not (0 <= p < len(view[t])) for p in ps) for t, ps in assignment(calls).items())
+
+
 def consumer_section(rng, view, routes):
-    """-> (ops, expect_error)"""
+    """consumer creation is the last thing done with the client unless it is certain to succeed"""
     known = sorted(view)
     calls = []
-    bad = False
     for _ in range(rng.randint(1, 2)):
         k = rng.random()
         if k < 0.25 or not known:
             t = unknown_name(rng, known)
-            if t not in view:
-                bad = True
-                calls.append(T("with_topic", [t]) if rng.random() < 0.5 else T("with_topic_partitions", [t, [0]]))
-                continue
+            calls.append(T("with_topic", [t]) if rng.random() < 0.5 else T("with_topic_partitions", [t, [0]]))
+            continue
         t = rng.choice(known)
         n = len(view[t])
         if k < 0.55:
@@ -214,19 +229,20 @@ def consumer_section(rng, view, routes):
         else:
             ps = []
             for _ in range(rng.randint(0, 3)):
-                if n and rng.random() < 0.7:
+                if n and rng.random() < 0.75:
                     ps.append(rng.randrange(n))
                 else:
                     ps.append(rng.choice([n, n + 1, 99, -1, I32MIN, I32MAX]))
-                    bad = True
             calls.append(T("with_topic_partitions", [t, ps]))
     calls.append(T("with_fallback_offset", [T(rng.choice(["earliest", "latest"]))]))
     if rng.random() < 0.4:
         calls += [T("with_group", [G]), T("with_offset_storage", [rng.choice([0, 1])])]
     ops = [T("consumer_build", [T("from_client"), calls])]
-    if not bad:
+    final = not assignment_outside(calls, view) and all(
+        (t, p) in routes for t, ps in assignment(calls).items() for p in (ps or range(len(view[t])))) and all(view[t] for t in assignment(calls))
+    if final:
         ops += [T("poll"), T("into_client")]
-    return ops, bad
+    return ops, not final
 
 
 def make_case(rng, kind=None, two_phase=None):
@@ -424,13 +440,7 @@ def oracle(case, recs, cl):
             elif res.name != "ok":
                 bad("send_all to known partitions failed")
         elif op.name == "consumer_build":
-            wrong = False
-            for c in op.args[1]:
-                if c.name == "with_topic" and c.args[0] not in view:
-                    wrong = True
-                if c.name == "with_topic_partitions":
-                    wrong |= c.args[0] not in view or any(not (0 <= p < len(view[c.args[0]])) for p in c.args[1])
-            if wrong:
+            if assignment_outside(op.args[1], view):
                 must_reject("consumer for a topic/partition outside the loaded metadata")
         if len(fails) >= 6:
             break
@@ -458,7 +468,9 @@ def _has_outside_entry(case, recs):
             elif op.name == "fetch_group_topic_offset":
                 es = [(op.args[1], 0)] if op.args[1] not in m.view else []
             else:
-                es = [(c.args[0], 0) for c in op.args[1] if c.name in ("with_topic", "with_topic_partitions") and c.args[0] not in m.view]
+                if assignment_outside(op.args[1], m.view):
+                    return True
+                es = []
             if any(classify(m.view, m.routes(), t, p) in ("unknown", "range") for t, p in es):
                 return True
     return False
